@@ -150,7 +150,7 @@ def requiredNodeNames (row : ClassRow) (nodes : List String) : List String :=
 
 /-- options whose presence changes pin geometry or the node set in ways that are not modelled -/
 def unsupportedOpts : List String :=
-  ["pinnodes", "pinnames", "pinlabels", "pindefs", "anchors", "def", "nodes", "aspect"]
+  ["pinnodes", "pinnames", "pinlabels", "pindefs", "anchors", "def", "nodes"]
 
 /-! ### Cpt.R : the rotation table (generated: `Gen.rotTable`, `Gen.rotNormalise`); any angle that misses the table
      goes through cos/sin floats in the code and is not modelled -/
@@ -306,7 +306,7 @@ def splitOne (st : SplitSt) (e : Elt) : Except String (SplitSt × Elt) :=
       let m := if Gen.supplyPositiveKeys.contains key then 0 else e.nodes.length - 1
       if (row.nodePinnames[m]?).getD "" == "" then .error "implicit-on-undrawn-node" else
       let n := (e.nodes[m]?).getD ""
-      if (n.splitOn ".").length > 1 then .error "cannot-split-pin" else
+      if n.toList.contains '.' then .error "cannot-split-pin" else
       let count := cget st.counts n + (if st.implicit.contains n then 1 else 0)
       if e.typ == "A" || count == 1 then
         .ok ({ st with implicit := st.implicit ++ [n] }, e)
@@ -461,14 +461,16 @@ def resolvePre (spacing : Rat) (all : List String) (e : Elt) : Except String Pre
   let some ang := e.angle | throw "bad-rotate"
   let some sz := e.size row | throw "bad-size"
   let some sc := e.scale | throw "bad-scale"
+  -- Cpt.aspect = float(opts.get('aspect', default_aspect));  Cpt.h = w / aspect
+  let some asp := optNum e.opts "aspect" row.defaultAspect | throw "bad-aspect"
   if e.ignore then
     return ⟨e.name, e.cls, [], [], row, ang, sz, sc, 0, 0, e.stretch row, true, true, false, false, false⟩
   let some (allpins, pinOrder) := pinsOf row e sz sc | throw s!"no-pin-table:{e.cls}"
   let nodes := eltNodes all e row pinOrder
   let pins ← requiredPins e row allpins nodes
   if pins.length != nodes.length then throw "pin-mismatch"
-  if row.defaultAspect == 0 then throw "zero-aspect"
-  return ⟨e.name, e.cls, nodes, pins, row, ang, sz, sc, row.w / row.defaultAspect, row.w * sz * spacing, e.stretch row, skip,
+  if asp == 0 then throw "zero-aspect"
+  return ⟨e.name, e.cls, nodes, pins, row, ang, sz, sc, row.w / asp, row.w * sz * spacing, e.stretch row, skip,
           false, row.nodePinnames == ["+", "-"] && row.aux.isEmpty, row.doTranspose && e.invert, row.doTranspose && e.mirror⟩
 
 /-- Cpt.scales for one pin -/
